@@ -3,7 +3,7 @@ import numpy as np
 import scipy.linalg as sl
 
 from .. import casecheck
-from ..pool import contract, metadata_problem, core_arrays, carray, same_state
+from ..pool import contract, metadata_problem, core_arrays, carray, same_state, value_snapshot, value_changed
 
 ASSUME = [
     'no truncation active (threshold 0, rank cap 200); integer SLIM components from spec/Splitting.tla; dense reference = ordered product of scipy expm of the embedded local generators along the stage word emitted by the specification',
@@ -47,6 +47,7 @@ def replay(case):
         Ss, Ls, Ms = [a.real.copy() for a in Ss], [a.real.copy() for a in Ls], [a.real.copy() for a in Ms]
     x0 = TT(core_arrays(isl['x0']))
     x0d = contract(x0.cores).reshape(-1)
+    x0snap = value_snapshot([x0])
     Kfull = []
     for b in range(d - 1):
         Kb = np.kron(Ss[b], np.eye(n)) + sum(np.kron(Ls[b][:, :, k], Ms[b + 1][k]) for k in range(Ls[b].shape[2]))
@@ -128,9 +129,9 @@ def replay(case):
                     break
         except Exception as e:
             out.append(('%s:exception:%s' % (name, type(e).__name__), '%r (cfg %r)' % (e, cfg)))
-    now = contract(x0.cores).reshape(-1)
-    if np.max(np.abs(now - x0d)) > 1e-9 * np.max(np.abs(x0d)):
-        out.append(('operand_changed', 'the initial value was modified by a splitting integrator'))
+    why = value_changed(x0snap)
+    if why:
+        out.append(('operand_changed', 'the initial value was modified by a splitting integrator (%s)' % why))
     return out
 
 
